@@ -157,6 +157,17 @@ def oracle(doc, stats):
             first = (how, els, pos, bonds)
         elif (els, pos, bonds) != first[1:]:
             raise Violation("path-vs-file", "%s and %s give different results" % (first[0], how))
+    # a loaded object is the caller's: overwriting it in place must not influence a later load of the same file
+    from mv import mf
+    mf.scribble(loads["Atoms.load(str path)"])
+    mf.scribble(loads["Atoms.load_cml(path)"])
+    try:
+        with silenced():
+            again = Atoms.load(path)
+    except Exception as e:
+        raise Violation("exception-in-load", "second load of the same path: %s: %r" % (type(e).__name__, e))
+    if summarize(again)[:2] != (want_els, want_pos) or sorted(tuple(sorted(b)) for b in summarize(again)[2]) != want_bonds:
+        raise Violation("second-load-differs", "loading the same path again after modifying the first result in place gives %r" % (summarize(again),))
     stats.count("ids:" + doc["scheme"])
     stats.count("bonds:" + doc["bond_kind"])
     stats.count("atoms:%s" % ("1" if len(ids) == 1 else "2-8" if len(ids) <= 8 else "9-30" if len(ids) <= 30 else "128+"))
